@@ -265,6 +265,9 @@ pub fn lazy_w(cs: &CS, x: &Fq) -> Result<ElementVar, SynthesisError> {
     crate::tamper::note_inputs(before, cs.num_witness_variables());
     r
 }
+pub fn lazy_c(cs: &CS, x: &Fq) -> Result<ElementVar, SynthesisError> {
+    AllocVar::<Fq, Fq>::new_constant(cs.clone(), *x)
+}
 fn native_pair(i: &Inp) -> Option<(El, El)> {
     Some((dec(&f1(i).to_bytes_le()).ok()?, dec(&f2(i).to_bytes_le()).ok()?))
 }
@@ -380,6 +383,65 @@ pub fn gadgets() -> Vec<Gadget> {
         let bv = mixed_bits(cs, bits, |k, n| if (k * 3 + n) % 4 == 0 { 1 } else { 0 })?;
         Ok(OutVar::E(ElementVar::new_constant(cs.clone(), *p)?.scalar_mul_le(bv.iter())?))
     }, |i| nat_mul(i));
+    // --- the provided fixed-base methods of the CurveVar trait (bases P, 2P, 4P, ... computed natively)
+    fn pow2_bases(p: &El, n: usize) -> Vec<El> {
+        let mut out = Vec::with_capacity(n);
+        let mut cur = *p;
+        for _ in 0..n {
+            out.push(cur);
+            cur = cur + cur;
+        }
+        out
+    }
+    g!(v, "precomputed_base_scalar_mul_le (witness bits, accumulator = zero())", "EBits", false, |cs, i| {
+        use ark_r1cs_std::groups::CurveVar;
+        let Inp::EBits(p, bits) = i else { panic!("harness") };
+        let bv = mixed_bits(cs, bits, |_, _| 1)?;
+        let bases = pow2_bases(p, bits.len());
+        let mut acc = <ElementVar as CurveVar<El, Fq>>::zero();
+        acc.precomputed_base_scalar_mul_le(bv.iter().zip(bases.iter()))?;
+        Ok(OutVar::E(acc))
+    }, |i| nat_mul(i));
+    g!(v, "precomputed_base_scalar_mul_le (mixed bits, accumulator = the base as a witness)", "EBits", false, |cs, i| {
+        use ark_r1cs_std::groups::CurveVar;
+        let Inp::EBits(p, bits) = i else { panic!("harness") };
+        let bv = mixed_bits(cs, bits, |k, n| if (k * 5 + n) % 3 == 0 { 0 } else { 1 })?;
+        let bases = pow2_bases(p, bits.len());
+        let mut acc = raw(cs, p)?;
+        acc.precomputed_base_scalar_mul_le(bv.iter().zip(bases.iter()))?;
+        Ok(OutVar::E(acc))
+    }, |i| nat_mul(i)); // (ark-r1cs-std semantics: the previous value of the accumulator is discarded)
+    // (one scalar only: with several, the provided method of ark-r1cs-std 0.4 restarts from zero for every scalar and
+    //  returns the last term -- behaviour of the dependency, outside this repository, not judged here)
+    g!(v, "precomputed_base_multiscalar_mul_le (one scalar, bases -2P, -4P, ...)", "EBits", false, |cs, i| {
+        use ark_r1cs_std::groups::CurveVar;
+        let Inp::EBits(p, bits) = i else { panic!("harness") };
+        let bv1 = mixed_bits(cs, bits, |_, _| 1)?;
+        let b2 = pow2_bases(&(-(*p + *p)), bits.len());
+        let r = <ElementVar as CurveVar<El, Fq>>::precomputed_base_multiscalar_mul_le(&[b2], [bv1].iter())?;
+        Ok(OutVar::E(r))
+    }, |i| nat_mul(i).map(|o| match o { Out::E(e) => Out::E(-(e + e)), o => o }));
+    g!(v, "CurveVar::zero() / is_zero / constant", "E", false, |cs, i| {
+        use ark_r1cs_std::groups::CurveVar;
+        let z = <ElementVar as CurveVar<El, Fq>>::zero();
+        let e = raw(cs, &e1(i))?;
+        let k = <ElementVar as CurveVar<El, Fq>>::constant(e1(i));
+        let flags = vec![e.is_zero()?, z.is_zero()?, (e.clone() + z.clone()).is_eq(&e)?, k.is_eq(&e)?, (e.clone() - k).is_zero()?];
+        Ok(OutVar::Bits(flags))
+    }, |i| Some(Out::Bits(vec![e1(i) == El::IDENTITY, true, true, true, true])));
+    // --- an ElementVar that lazily holds a *constant* encoding, forced by each operator in turn (an invalid constant
+    //     has no constraint that could fail: the operation itself has to refuse)
+    g!(v, "G + (constant lazy encoding)", "F", true, |cs, i| Ok(OutVar::E(raw(cs, &El::GENERATOR)? + lazy_c(cs, &f1(i))?)), |i| dec(&f1(i).to_bytes_le()).ok().map(|e| Out::E(El::GENERATOR + e)));
+    g!(v, "(constant lazy encoding) + G", "F", true, |cs, i| Ok(OutVar::E(lazy_c(cs, &f1(i))? + raw(cs, &El::GENERATOR)?)), |i| dec(&f1(i).to_bytes_le()).ok().map(|e| Out::E(e + El::GENERATOR)));
+    g!(v, "G - &(constant lazy encoding)", "F", true, |cs, i| { let c = lazy_c(cs, &f1(i))?; Ok(OutVar::E(raw(cs, &El::GENERATOR)? - &c)) }, |i| dec(&f1(i).to_bytes_le()).ok().map(|e| Out::E(El::GENERATOR - e)));
+    g!(v, "G += (constant lazy encoding)", "F", true, |cs, i| { let mut g0 = raw(cs, &El::GENERATOR)?; g0 += lazy_c(cs, &f1(i))?; Ok(OutVar::E(g0)) }, |i| dec(&f1(i).to_bytes_le()).ok().map(|e| Out::E(El::GENERATOR + e)));
+    g!(v, "G -= (constant lazy encoding)", "F", true, |cs, i| { let mut g0 = raw(cs, &El::GENERATOR)?; g0 -= lazy_c(cs, &f1(i))?; Ok(OutVar::E(g0)) }, |i| dec(&f1(i).to_bytes_le()).ok().map(|e| Out::E(El::GENERATOR - e)));
+    g!(v, "(constant lazy encoding) + Element", "F", true, |cs, i| Ok(OutVar::E(lazy_c(cs, &f1(i))? + El::GENERATOR)), |i| dec(&f1(i).to_bytes_le()).ok().map(|e| Out::E(e + El::GENERATOR)));
+    g!(v, "(constant lazy encoding).negate()", "F", true, |cs, i| Ok(OutVar::E(lazy_c(cs, &f1(i))?.negate()?)), |i| dec(&f1(i).to_bytes_le()).ok().map(|e| Out::E(-e)));
+    g!(v, "(constant lazy encoding).double()", "F", true, |cs, i| Ok(OutVar::E(lazy_c(cs, &f1(i))?.double()?)), |i| dec(&f1(i).to_bytes_le()).ok().map(|e| Out::E(e + e)));
+    g!(v, "(constant lazy encoding) is_eq G", "F", true, |cs, i| Ok(OutVar::B(lazy_c(cs, &f1(i))?.is_eq(&raw(cs, &El::GENERATOR)?)?)), |i| dec(&f1(i).to_bytes_le()).ok().map(|e| Out::B(e == El::GENERATOR)));
+    g!(v, "conditionally_select(w, G, (constant lazy encoding))", "F", true, |cs, i| { let gd = wb(cs, false)?; Ok(OutVar::E(ElementVar::conditionally_select(&gd, &raw(cs, &El::GENERATOR)?, &lazy_c(cs, &f1(i))?)?)) }, |i| dec(&f1(i).to_bytes_le()).ok().map(Out::E));
+    g!(v, "(constant lazy encoding).scalar_mul_le(5)", "F", true, |cs, i| { let bits = [wb(cs, true)?, wb(cs, false)?, wb(cs, true)?]; Ok(OutVar::E(lazy_c(cs, &f1(i))?.scalar_mul_le(bits.iter())?)) }, |i| dec(&f1(i).to_bytes_le()).ok().map(|e| Out::E(e * Fr::from(5u64))));
     // --- equality family
     g!(v, "is_eq", "EE", false, |cs, i| Ok(OutVar::B(raw(cs, &e1(i))?.is_eq(&raw(cs, &e2(i))?)?)), |i| Some(Out::B(e1(i) == e2(i))));
     g!(v, "is_neq", "EE", false, |cs, i| Ok(OutVar::B(raw(cs, &e1(i))?.is_neq(&raw(cs, &e2(i))?)?)), |i| Some(Out::B(e1(i) != e2(i))));
